@@ -4,6 +4,7 @@ import (
 	"errors"
 	"fmt"
 	"net"
+	"strings"
 )
 
 var ErrInvalidAddr = errors.New("invalid IP subnet/host")
@@ -11,11 +12,16 @@ var ErrInvalidAddr = errors.New("invalid IP subnet/host")
 func ParseIPNet(subnet string) (*net.IPNet, error) {
 	_, result, err := net.ParseCIDR(subnet)
 	if err == nil {
+		// only IPv4 subnets are supported
+		if len(result.IP) != net.IPv4len {
+			return nil, ErrInvalidAddr
+		}
 		return result, err
 	}
 	// try to parse host IP address instead
 	ipAddr := net.ParseIP(subnet)
-	if ipAddr == nil {
+	// only IPv4 hosts are supported (IPv4-mapped IPv6 form is rejected too)
+	if ipAddr == nil || ipAddr.To4() == nil || strings.Contains(subnet, ":") {
 		return nil, ErrInvalidAddr
 	}
 	return &net.IPNet{IP: ipAddr.To4(), Mask: net.CIDRMask(32, 32)}, nil
